@@ -5,7 +5,7 @@ import random
 import hfreplay
 
 
-def replay(pyhf, backend, precision, chunk, props, seed, extra_batch=False):
+def replay(pyhf, backend, precision, chunk, props, seed, extra_batch=False, ainv=None):
     """chunk: list of JSON lines (cases of whole spec groups)."""
     rng = random.Random(seed)
     cache = {}
@@ -17,7 +17,7 @@ def replay(pyhf, backend, precision, chunk, props, seed, extra_batch=False):
         if k != last_key:
             out["specs"] += 1
             last_key = k
-        F, drift, st = hfreplay.check_case(pyhf, case, backend, precision, props, rng, cache, extra_batch=extra_batch)
+        F, drift, st = hfreplay.check_case(pyhf, case, backend, precision, props, rng, cache, extra_batch=extra_batch, ainv=ainv)
         out["n"] += 1
         if st.get("nmods", 0) >= 2 or st.get("npars", 0) >= 2:
             out["nontrivial"] += 1
